@@ -234,6 +234,10 @@ def shared(ctx):
     # something there: only the fee split of accepted transactions.  A new writer of tips (or of fee_pool outside the fee stages) widens what a restart loses.
     from rules.props import c01
     core.import_rules(ctx, [c01.r5_issuance_confinement], "X01")
+    # from_block restores the coin map as `CoinMapping::new(tree under the header's root)`: whatever the coin map knows must be IN the tree at every block boundary.
+    # C20.R1: insert_coin / remove_coin write the coin entry and its count through to the tree on every path (nothing is buffered next to it)
+    from rules.props import c20
+    core.import_rules(ctx, [c20.r1_protocol, c20.r2_confinement], "X20")
 
 
 RULES = [r1_reconstruction_map, r2_constant_fields_invariant, r3_pairing, shared]
